@@ -18,7 +18,7 @@ usage: gen_from_source.py [--src DIR] [--out FILE] [--out-conv FILE]      (defau
 """
 import re, sys, os, argparse
 from types import SimpleNamespace
-VERIF = os.environ.get('SFX_VERIF') or os.path.dirname(os.path.dirname(os.path.abspath(__file__)))
+VERIF = os.environ.get('SFX_VERIF') or os.path.dirname(os.path.dirname(os.path.realpath(__file__)))
 SRC = os.environ.get('SFX_REPO', '/repo') + '/src'
 OUT = VERIF + '/lean/SfxModel/Generated.lean'
 OUT_CONV = VERIF + '/lean/SfxModel/GeneratedConv.lean'
